@@ -481,6 +481,13 @@ def batch_scenarios(ctx):
         "loopy-call-expression-argument-only": pt.make_dict_of_named_arrays({"o": _lpcall(3 * x + 1)["out"]}),
         "loopy-call-named-expression-argument-equals-input": pt.make_dict_of_named_arrays(
             {"o": _lpcall((3 * y + 1).tagged(Named("x")))["out"] + x}),
+        # a size parameter reachable ONLY through the shape of an input that is itself an output, named like an
+        # identifier code generation derives later (an iname of another output, the prefix of a stored temporary)
+        "size-param-only-in-input-shape-named-like-iname": pt.make_dict_of_named_arrays(
+            {"a": pt.make_placeholder("xs", (4, pt.make_size_param("b_dim0")), np.float64), "b": (x + y) * 2}),
+        "size-param-only-in-input-shape-named-like-temp-prefix": pt.make_dict_of_named_arrays(
+            {"a": pt.make_placeholder("xs", (4, pt.make_size_param("tmp")), np.float64),
+             "b": (x + 1).tagged((PrefixNamed("tmp"), ImplStored())) * y}),
         # a dictionary of arrays used INSIDE the graph (its entries are operands), next to other temporaries
         "inner-dictionary-next-to-stored-temps": pt.make_dict_of_named_arrays(
             {"o": _inner["a"] + (_inner["b"] * 2).tagged(ImplStored()) + (x * 3).tagged(ImplStored())}),
@@ -498,6 +505,7 @@ def batch_scenarios(ctx):
             {"o": (pt.make_placeholder("_pt_temp", (4,), np.float64) + 1).tagged(ImplStored()) * 2}),
     }
     inputs = {"x": np.arange(4.0), "y": np.arange(4.0) * 3, "_pt_data": np.arange(4.0) + 7,
+              "xs": np.arange(12.0).reshape(4, 3),
               "_pt_temp": np.arange(4.0) - 2, "acc_dim0": np.arange(4.0) * 5 + 1,
               "rowsum_dim0": np.arange(12.0).reshape(4, 3)}
     for nm, expr in scen.items():
@@ -547,7 +555,7 @@ def batch_scenarios(ctx):
                           f"temporaries {nmz.get('temps')}, arguments {nmz.get('args')}", {"scenario": nm, "names": nmz})
         if r.error:
             continue    # executor limitation; names were checked above
-        ref = evaluate(expr, run)
+        ref = evaluate(expr, run, sizes={"b_dim0": 3, "tmp": 3})
         for key, val in ref.items():
             got = r.outputs[0].get(key) if r.outputs else None
             if got is None or not close(got, val):
